@@ -33,3 +33,20 @@ func Gen(t *rapid.T) *Case {
 	}
 	return c
 }
+
+func GenRe(t *rapid.T) *ReCase {
+	c := &ReCase{Publishes: rapid.IntRange(1, 4).Draw(t, "pubs"), Wait: rapid.IntRange(0, 3).Draw(t, "wait") == 0}
+	n := rapid.IntRange(1, 4).Draw(t, "nh")
+	for i := 0; i < n; i++ {
+		h := H{Ctx: rapid.Bool().Draw(t, "ctx"), Async: rapid.IntRange(0, 2).Draw(t, "async") == 0, Seq: rapid.Bool().Draw(t, "seq")}
+		switch rapid.IntRange(0, 2).Draw(t, "panic") {
+		case 0:
+			h.Panic = "always"
+		case 1:
+			h.Panic = "nth"
+			h.N = rapid.IntRange(1, c.Publishes).Draw(t, "n")
+		}
+		c.Handlers = append(c.Handlers, h)
+	}
+	return c
+}
